@@ -78,21 +78,21 @@ func signTuple(gnosisFlavour bool, t sigTuple, key *ecdsa.PrivateKey) []byte {
 	if gnosisFlavour {
 		d, err := gnosisssztypes.NewSlotDecryptionSignatureData(t.Instance, t.Eon, t.Slot, t.TxPointer, preimages(t.Identities))
 		if err != nil {
-			panic(err)
+			return nil
 		}
 		s, err := d.ComputeSignature(key)
 		if err != nil {
-			panic(err)
+			return nil
 		}
 		return s
 	}
 	d, err := serviceztypes.NewDecryptionSignatureData(t.Instance, t.Eon, preimages(t.Identities))
 	if err != nil {
-		panic(err)
+		return nil // e.g. an identity that is not 32 bytes long: there is no signature over such a tuple
 	}
 	s, err := d.ComputeSignature(key)
 	if err != nil {
-		panic(err)
+		return nil
 	}
 	return s
 }
@@ -100,7 +100,13 @@ func signTuple(gnosisFlavour bool, t sigTuple, key *ecdsa.PrivateKey) []byte {
 // mutateTuple changes exactly one field.
 func mutateTuple(rt *rapid.T, l string, t sigTuple, gnosisFlavour bool, idLen int) (sigTuple, string) {
 	c := t.clone()
-	kinds := []string{"instance", "eon", "identity-byte", "identity-count"}
+	kinds := []string{"instance", "eon", "identity-byte", "identity-count", "identity-prefixed"}
+	for _, id := range t.Identities {
+		if len(id) > 1 && id[0] == 0 {
+			kinds = append(kinds, "identity-zero-stripped")
+			break
+		}
+	}
 	if gnosisFlavour {
 		kinds = append(kinds, "slot", "txpointer")
 	}
@@ -119,8 +125,24 @@ func mutateTuple(rt *rapid.T, l string, t sigTuple, gnosisFlavour bool, idLen in
 		c.TxPointer++
 	case "identity-byte":
 		i := rapid.IntRange(0, len(c.Identities)-1).Draw(rt, l+"idi")
-		j := rapid.IntRange(0, idLen-1).Draw(rt, l+"idj")
+		j := rapid.IntRange(0, len(c.Identities[i])-1).Draw(rt, l+"idj") // (lengths vary after a length mutation)
 		c.Identities[i][j] ^= 0x01
+	case "identity-prefixed":
+		// the same identity with bytes in front of it: a different identity of a different length
+		i := rapid.IntRange(0, len(c.Identities)-1).Draw(rt, l+"idi")
+		pre := rapid.SliceOfN(rapid.Byte(), 1, 32).Draw(rt, l+"pre")
+		c.Identities[i] = append(pre, c.Identities[i]...)
+	case "identity-zero-stripped":
+		for i, id := range c.Identities {
+			if len(id) > 1 && id[0] == 0 {
+				j := 1
+				for j < len(id)-1 && id[j] == 0 && rapid.Bool().Draw(rt, l+"more") {
+					j++
+				}
+				c.Identities[i] = id[j:]
+				break
+			}
+		}
 	case "identity-order":
 		c.Identities[0], c.Identities[1] = c.Identities[1], c.Identities[0]
 	case "identity-count":
@@ -168,6 +190,9 @@ func genC06Case(rt *rapid.T) c06Case {
 	var ids [][]byte
 	for i := 0; i < nid; i++ {
 		id := rapid.SliceOfN(rapid.Byte(), idLen, idLen).Draw(rt, fmt.Sprintf("id%d", i))
+		if rapid.IntRange(0, 3).Draw(rt, fmt.Sprintf("idz%d", i)) == 0 {
+			id[0] = 0
+		}
 		ids = append(ids, id)
 	}
 	sort.Slice(ids, func(i, j int) bool { return bytes.Compare(ids[i], ids[j]) < 0 })
@@ -279,6 +304,10 @@ func genC06Case(rt *rapid.T) c06Case {
 			sig = signTuple(c.Gnosis, signOver, uni.Keys[spec.Signer])
 			tt := signOver
 			spec.Tuple = &tt
+			if sig == nil {
+				// nothing can be signed over that tuple (an identity of the wrong length)
+				sig, spec.Tuple, spec.Kind = make([]byte, 65), nil, spec.Kind+":unsignable"
+			}
 		}
 		c.Sigs = append(c.Sigs, sig)
 		c.SigSpecs = append(c.SigSpecs, spec)
@@ -550,7 +579,11 @@ func genC06Genuine(rt *rapid.T) c06Case {
 	}
 	var ids [][]byte
 	for i, nid := 0, rapid.IntRange(1, 3).Draw(rt, "nid"); i < nid; i++ {
-		ids = append(ids, rapid.SliceOfN(rapid.Byte(), idLen, idLen).Draw(rt, fmt.Sprintf("id%d", i)))
+		id := rapid.SliceOfN(rapid.Byte(), idLen, idLen).Draw(rt, fmt.Sprintf("id%d", i))
+		if rapid.IntRange(0, 3).Draw(rt, fmt.Sprintf("idz%d", i)) == 0 {
+			id[0] = 0
+		}
+		ids = append(ids, id)
 	}
 	sort.Slice(ids, func(i, j int) bool { return bytes.Compare(ids[i], ids[j]) < 0 })
 	c.Presented = sigTuple{Instance: simInstanceID, Eon: uint64(rapid.IntRange(0, 3).Draw(rt, "eon")), Slot: uint64(rapid.IntRange(0, 1000).Draw(rt, "slot")), TxPointer: uint64(rapid.IntRange(0, 1000).Draw(rt, "ptr")), Identities: ids}
